@@ -59,37 +59,37 @@ type Cell struct {
 type Decoder func(b []byte) (r rune, n int, more bool)
 
 type Term struct {
-	W, H        int
-	Cells       []Cell
-	X, Y        int
-	Pending     bool
-	Pen         Pen
-	G           [2]byte
-	Shift       int
-	AltFont     bool
-	Modes       map[int]bool // DEC private
-	AModes      map[int]bool
-	CursorVis   bool
-	CursorStyle int // -1 never set
-	CursorColor string
-	Title       string
-	TitleStack  []string
-	Alt         bool
-	saved       []Cell
-	sx, sy      int
-	KeypadApp   bool
-	Unknown     map[string]int
-	Errors      []string
-	NErrors     int
-	Stamp       int
-	Acs         map[byte][]rune
-	FFClears    bool
-	Clip        string
-	Bells       int
-	cond        *runewidth.Condition
-	Dec         Decoder
-	Residue     bool // report '%' anywhere and "$<" in text as parameter-language residue
-	lastX, lastY int // cell of the most recently printed base character (-1 if cursor moved since)
+	W, H         int
+	Cells        []Cell
+	X, Y         int
+	Pending      bool
+	Pen          Pen
+	G            [2]byte
+	Shift        int
+	AltFont      bool
+	Modes        map[int]bool // DEC private
+	AModes       map[int]bool
+	CursorVis    bool
+	CursorStyle  int // -1 never set
+	CursorColor  string
+	Title        string
+	TitleStack   []string
+	Alt          bool
+	saved        []Cell
+	sx, sy       int
+	KeypadApp    bool
+	Unknown      map[string]int
+	Errors       []string
+	NErrors      int
+	Stamp        int
+	Acs          map[byte][]rune
+	FFClears     bool
+	Clip         string
+	Bells        int
+	cond         *runewidth.Condition
+	Dec          Decoder
+	Residue      bool // report '%' anywhere and "$<" in text as parameter-language residue
+	lastX, lastY int  // cell of the most recently printed base character (-1 if cursor moved since)
 
 	// tokenizer
 	st      int
@@ -101,7 +101,7 @@ type Term struct {
 	oscEsc  bool
 	prevTxt byte // previous text byte (for "$<" detection)
 
-	Controls int // complete controls seen
+	Controls  int // complete controls seen
 	TextRunes int
 }
 
